@@ -10,7 +10,8 @@ CHECKS = {
                           ("harness.priority", "C01_HeapMaintenance")]},
     "C02": {"harnesses": [("harness.priority", "C02_OrderLaws"), ("harness.priority", "C02_HeapMaintenance"),
                           ("harness.matching", "C02_ClearingRound"), ("harness.matching", "C02_Continuous")]},
-    "C04": {"harnesses": [("harness.ophistory", "C04_OpHistory"), ("harness.ophistory", "C04_NegativeOps")]},
+    "C04": {"harnesses": [("harness.ophistory", "C04_OpHistory"), ("harness.ophistory", "C04_NegativeOps"),
+                          ("harness.runs", "C04_Spoofing")]},
     "C05": {"harnesses": [("harness.runs", "C05_RunnerBasics")]},
     "C09": {"harnesses": [("harness.sessions", "C09_SessionRules")]},
     "C10": {"harnesses": [("harness.runs", "C10_RunnerBasics")]},
